@@ -245,7 +245,7 @@ def random_scene(
                     mat["mu"] = spd_tensor(rng, 1.0, 2.0, 2.0)
                 elif tier == "diag":
                     mat["mu"] = [float(x) for x in rng.uniform(1.0, 2.5, size=3)]
-                elif rng.random() < 0.4:
+                elif "tfsf" not in kinds and rng.random() < 0.4:
                     # anisotropic permeability on top of an isotropic permittivity (tiers are independent)
                     mat["mu"] = [float(x) for x in rng.uniform(1.0, 2.5, size=3)]
                     meta["mu_tier_wider_than_eps"] = True
